@@ -1502,6 +1502,8 @@ static bool tag_compare(const deque<int> &d, size_t a_idx, size_t b_idx, size_t 
          {
             return(false);
          }
+         a_idx++;
+         b_idx++;
       }
    }
    return(true);
